@@ -184,8 +184,13 @@ def run(ctx, rep):
     KEEPT = "rustic_core::commands::prune::PrunePack::into_index_pack"
     NOWT = "rustic_core::commands::prune::PrunePack::into_index_pack_with_time"
     # the closure that queues a pack for removal: pushes pack.id to data_packs_remove / tree_packs_remove
-    delc = [c for c in prog.closures_of(PR, recursive=False) if sum(1 for _, t in c.calls() if "callee" in t and callee(t).endswith("Vec::<T, A>::push")) == 2 and any(cc.get("discr_ty", "").endswith("isize") for cc in [c.term(i) for i in range(len(c.blocks))] if cc["k"] == "switch")]
-    rep.require("C02.d", "executor/delete-closure", len(delc) == 1, where=PR.loc(), what="prune_repository has one closure queueing packs for removal (data/tree lists)")
+    cands = list(prog.closures_of(PR, recursive=False))
+    # ... or a helper function / method of the prune module called from prune_repository (e.g. `PacksToRemove::push`)
+    for _, t_ in PR.calls():
+        if "callee" in t_ and callee(t_).startswith("rustic_core::commands::prune::") and callee(t_) in prog.bodies and prog.bodies[callee(t_)] not in cands:
+            cands.append(prog.bodies[callee(t_)])
+    delc = [c for c in cands if sum(1 for _, t in c.calls() if "callee" in t and callee(t).endswith("Vec::<T, A>::push")) == 2 and any(cc.get("discr_ty", "").endswith("isize") for cc in [c.term(i) for i in range(len(c.blocks))] if cc["k"] == "switch")]
+    rep.require("C02.d", "executor/delete-closure", len(delc) == 1, where=PR.loc(), what="prune_repository has one closure / helper queueing packs for removal (data/tree lists by blob type)")
     if len(sws) == 1 and len(delc) == 1:
         sw = sws[0]
         DEL = delc[0].path
